@@ -38,6 +38,7 @@ func init() { register("C17", "exploration", runC17, replayC17) }
 
 type sharedObj struct {
 	kind     string
+	special  string // non-empty for the hand-made objects every round keeps hot
 	item     ast.ItemNode
 	data     *ast.DataMessage
 	ctl      ast.HSMSMessage
@@ -57,6 +58,8 @@ var c17Ops = map[string][]string{
 	"control": {"Type", "ToBytes", "Response"},
 	"bytes":   {"hsms.Parse"},
 	"text":    {"sml.Parse"},
+	// calls that must be refused, alone and in company (a process-wide switch flipped by another call would let them through)
+	"refused": {"dup-list-var-vs-child", "dup-in-children", "two-ellipses", "ellipsis-first", "u1-range", "i1-range", "ascii-8bit", "stream-range", "w-on-reply", "f4-inf", "rename-collision", "fill-range", "fill-dup"},
 }
 
 func msgSummary(m *ast.DataMessage) string {
@@ -147,10 +150,43 @@ func doOp(o *sharedObj, op string, tag string) (res string) {
 		if !ok {
 			return "not ok"
 		}
+		if o.special == "deep-bytes" {
+			// printing a deep nest costs gigabytes of copying: compare the re-encoding only
+			return fmt.Sprintf("ok %s %x", m.Type(), rng.HashStr(string(m.ToBytes())))
+		}
 		if dm, isData := m.(*ast.DataMessage); isData {
 			return msgSummary(dm)
 		}
 		return m.Type() + string(m.ToBytes())
+	case "refused":
+		switch op {
+		case "dup-list-var-vs-child":
+			return real.Str(ast.NewListNode("x", ast.NewUintNode(1, "x")))
+		case "dup-in-children":
+			return real.Str(ast.NewListNode(ast.NewUintNode(1, "y"), ast.NewListNode(ast.NewIntNode(2, "y"))))
+		case "two-ellipses":
+			return real.Str(ast.NewListNode(ast.NewUintNode(1, 1), "...", ast.NewUintNode(1, 2), "..."))
+		case "ellipsis-first":
+			return real.Str(ast.NewListNode("...", ast.NewUintNode(1, 1)))
+		case "u1-range":
+			return real.Str(ast.NewUintNode(1, 256))
+		case "i1-range":
+			return real.Str(ast.NewIntNode(1, -129))
+		case "ascii-8bit":
+			return real.Str(ast.NewASCIINode("caf\u00e9"))
+		case "stream-range":
+			return ast.NewDataMessage("n", 128, 1, 1, "H->E", ast.NewEmptyItemNode()).String()
+		case "w-on-reply":
+			return ast.NewDataMessage("n", 1, 2, 1, "H->E", ast.NewEmptyItemNode()).String()
+		case "f4-inf":
+			return real.Str(ast.NewFloatNode(4, 1e39))
+		case "rename-collision":
+			return real.Str(o.item.FillVariables(map[string]interface{}{"item": ast.NewUintNode(1, "b")}))
+		case "fill-range":
+			return real.Str(o.item.FillVariables(map[string]interface{}{"b": 300}))
+		case "fill-dup":
+			return real.Str(o.item.FillVariables(map[string]interface{}{"item": "b"}))
+		}
 	case "text":
 		msgs, errs, warns := sml.Parse(o.text)
 		var sb strings.Builder
@@ -189,6 +225,54 @@ func buildOne(r *rng.R, slot int) *sharedObj {
 			fill[k] = rawOf(full[k])
 		}
 	}
+	switch slot {
+	case 12:
+		// a message nested 600 lists deep (all goroutines decode it at the same moment: per-call bookkeeping of the
+		// decoder must not add up across calls)
+		it := &ref.Item{Kind: ref.U1, Slots: []ref.Slot{{Uint: 7}}}
+		for i := 0; i < 600; i++ {
+			it = &ref.Item{Kind: ref.L, Children: []*ref.Item{it}}
+		}
+		return &sharedObj{special: "deep-bytes", kind: "bytes", buf: ref.EncodeMessage(&ref.Msg{Stream: 1, Function: 1, W: 1, Session: 5, Sys: [4]byte{1, 2, 3, 4}, Item: it})}
+	case 13:
+		// a long-running decode: 3600 small items in nested lists
+		wide := &ref.Item{Kind: ref.L}
+		for i := 0; i < 60; i++ {
+			row := &ref.Item{Kind: ref.L}
+			for j := 0; j < 60; j++ {
+				row.Children = append(row.Children, &ref.Item{Kind: ref.U2, Slots: []ref.Slot{{Uint: uint64(i*60 + j)}}})
+			}
+			wide.Children = append(wide.Children, row)
+		}
+		return &sharedObj{special: "long-bytes", kind: "bytes", buf: ref.EncodeMessage(&ref.Msg{Stream: 6, Function: 11, W: 1, Session: 5, Sys: [4]byte{1, 2, 3, 4}, Item: wide})}
+	case 14:
+		// texts the parser must refuse, each for a different reason
+		texts := []string{
+			"S1F1 W H->E <L <U1 a> ... <U1 b> ...> .",
+			"S1F1 W H->E <L <U1 x> <L <I2 x>>> .",
+			"S1F1 W H->E <A[2] \"abc\"> .",
+			"S1F1 W H->E <U1 300> .",
+			"S1F2 W H->E <L> .",
+			"S1F1 W H->E <L ... <U1 1>> .",
+			"S1F1 W H->E <L[1] <U1 1> <U1 2>>\nS2F1 <B 256> .",
+		}
+		return &sharedObj{special: "refused-text", kind: "text", text: texts[r.Intn(len(texts))]}
+	case 15:
+		return &sharedObj{special: "refused-calls", kind: "refused", item: ast.NewListNode("item", ast.NewUintNode(1, "b"))}
+	case 16:
+		// a long-running parse: a big SML text
+		var sb strings.Builder
+		sb.WriteString("S6F11 W H->E big\n<L\n")
+		for i := 0; i < 150; i++ {
+			if i%10 == 0 {
+				fmt.Fprintf(&sb, "  <L <U4 %d> <A \"row %d\"> <F8 %d.5> <BOOLEAN T F> v%d>\n", i, i, i, i)
+			} else {
+				fmt.Fprintf(&sb, "  <L <U4 %d> <A \"row %d\"> <F8 %d.5> <BOOLEAN T F>>\n", i, i, i)
+			}
+		}
+		sb.WriteString("> .\n")
+		return &sharedObj{special: "long-text", kind: "text", text: sb.String()}
+	}
 	if slot == 11 {
 		// a big list that holds another big list (an encoder that farms out sub-lists must cope with many callers)
 		leaf := ast.NewUintNode(1, uint8(slot))
@@ -202,7 +286,7 @@ func buildOne(r *rng.R, slot int) *sharedObj {
 		}
 		outer[r.Intn(len(outer))] = ast.NewListNode(inner...)
 		outer[r.Intn(len(outer))] = ast.NewListNode(inner...)
-		return &sharedObj{kind: "item", item: ast.NewListNode(outer...), fill: map[string]interface{}{}, counts: map[string]interface{}{}}
+		return &sharedObj{special: "big-list", kind: "item", item: ast.NewListNode(outer...), fill: map[string]interface{}{}, counts: map[string]interface{}{}}
 	}
 	switch slot % 7 {
 	case 5:
@@ -402,7 +486,7 @@ func raceCanary() {
 }
 
 func runC17(c *ctx) {
-	c.Rule = "race-detector build of a multi-goroutine driver: a pool of 200 shared objects (templates with variables and ellipses, messages, control messages, encoded byte strings, SML texts, shared fill maps) whose sequential reference results are computed afterwards on independently constructed twins (nothing is asked of a shared object before the concurrent phase, so lazily initialised state is first touched under concurrency); 32 (thorough 64) goroutines hammer a few hot objects per round with String, ToBytes, Variables, Size, Header, SystemBytes, FillVariables (shared read-only map and private maps), ellipsis expansion, SetWaitBit, SetSessionIDAndSystemBytes, Type, response constructors, hsms.Parse of a shared buffer and sml.Parse, with Gosched jitter, and every 32nd operation builds, prints, expands, parses and fills an object whose variable names the process has never seen (checked against the model); 4 (thorough 15) rounds with different seeds. Oracle: no WARNING: DATA RACE block in the race log whose stacks include a frame of the library, and every call returns what the same call returned in the sequential pre-pass; a deliberately racy canary must be reported or the run is inconclusive. non-trivial = a call that started while another goroutine's call on the same object was in flight; distinct by (operation, object, round)"
+	c.Rule = "race-detector build of a multi-goroutine driver: a pool of 200 shared objects (templates with variables and ellipses, messages, control messages, encoded byte strings, SML texts, shared fill maps) whose sequential reference results are computed afterwards on independently constructed twins (nothing is asked of a shared object before the concurrent phase, so lazily initialised state is first touched under concurrency); 32 (thorough 64) goroutines hammer a few hot objects per round with String, ToBytes, Variables, Size, Header, SystemBytes, FillVariables (shared read-only map and private maps), ellipsis expansion, SetWaitBit, SetSessionIDAndSystemBytes, Type, response constructors, hsms.Parse of shared buffers (one nested 600 lists deep that all goroutines decode at the same moment, one with 3600 items) and sml.Parse (incl. a 150-row text), a set of 13 constructor/fill calls and 7 texts that must be refused alone and in company, with Gosched jitter, and every 32nd operation builds, prints, expands, parses and fills an object whose variable names the process has never seen (checked against the model); 4 (thorough 15) rounds with different seeds. Oracle: no WARNING: DATA RACE block in the race log whose stacks include a frame of the library, and every call returns what the same call returned in the sequential pre-pass; a deliberately racy canary must be reported or the run is inconclusive. non-trivial = a call that started while another goroutine's call on the same object was in flight; distinct by (operation, object, round)"
 	c.Assume = []string{"the race detector judges the executions that happened, not all interleavings", "GORACE log_path is set by bin/check"}
 
 	logPrefix := ""
@@ -426,11 +510,38 @@ func runC17(c *ctx) {
 		r := rng.New(seed)
 		pool := buildPool(r, 200)
 		// few hot objects per round so that the same object is hit concurrently
-		hot := make([]*sharedObj, 0, 12)
+		hot := make([]*sharedObj, 0, 20)
 		for _, i := range r.Perm(len(pool))[:12] {
 			hot = append(hot, pool[i])
 		}
-		big := pool[11] // the big nested list: every goroutine encodes it once at the very start of the round, all at once
+		// the hand-made objects are hot in every round (long-running calls, calls that must be refused, deep nests)
+		var big, deep *sharedObj
+		var long []*sharedObj
+		for _, o := range pool {
+			switch o.special {
+			case "":
+				continue
+			case "big-list":
+				big = o // the big nested list: every goroutine encodes it once at the very start of the round, all at once
+			case "deep-bytes":
+				deep = o // and every goroutine decodes the deep nest several times right after
+			}
+			if strings.HasPrefix(o.special, "long-") || o.special == "deep-bytes" {
+				long = append(long, o) // expensive calls: each goroutine makes one now and then, so that a few are always in flight
+				continue
+			}
+			already := false
+			for _, h := range hot {
+				already = already || h == o
+			}
+			if !already {
+				hot = append(hot, o)
+			}
+		}
+		if big == nil || deep == nil {
+			c.Inconclusive("the hand-made shared objects were not built")
+			return
+		}
 		// The hot loop shares nothing between goroutines except the objects under test: no mutex, no atomic, no
 		// channel. Any synchronisation of the monitor itself would order the goroutines' accesses (happens-before)
 		// and hide exactly the unsynchronised access pairs the race detector is there to find. Results, call
@@ -467,12 +578,29 @@ func runC17(c *ctx) {
 					lc.calls = append(lc.calls, call{int32(objIndex[big]), t0, int64(time.Since(t00))})
 					lc.first[[2]int{objIndex[big], 1}] = got
 				}
+				for rep := 0; rep < 8; rep++ {
+					t0 := int64(time.Since(t00))
+					got := doOp(deep, "hsms.Parse", "")
+					lc.calls = append(lc.calls, call{int32(objIndex[deep]), t0, int64(time.Since(t00))})
+					key := [2]int{objIndex[deep], 0}
+					if first, seen := lc.first[key]; !seen {
+						lc.first[key] = got
+					} else if got != first && len(lc.varies) < 3 {
+						lc.varies = append(lc.varies, fmt.Sprintf("bytes.hsms.Parse of the deep nest returned %q and %q", clipS(first), clipS(got)))
+					}
+				}
 				for k := 0; k < opsPer; k++ {
 					var o *sharedObj
-					if gr.Chance(4, 5) {
+					switch {
+					case gr.Chance(1, 300):
+						o = long[gr.Intn(len(long))]
+					case gr.Chance(4, 5):
 						o = hot[gr.Intn(len(hot))]
-					} else {
+					default:
 						o = pool[gr.Intn(len(pool))]
+						if o.special != "" && gr.Chance(9, 10) {
+							o = hot[gr.Intn(len(hot))]
+						}
 					}
 					ops := c17Ops[o.kind]
 					oi := gr.Intn(len(ops))
@@ -645,11 +773,30 @@ func c17Parent(c *ctx) int {
 		if len(head) > 4000 {
 			head = head[:4000]
 		}
-		if blocked > 0 && (strings.Contains(dump, "[chan send") || strings.Contains(dump, "[chan receive") || strings.Contains(dump, "[semacquire") || strings.Contains(dump, "[sync.") || strings.Contains(dump, "[select")) {
+		// a goroutine counts only if its own stack has a library frame; the verdict "hung inside the library" needs at
+		// least one such goroutine parked on a lock/channel and none of them running or runnable (a slow driver on a
+		// loaded machine has running ones, and the driver's own wg.Wait is not a library frame)
+		parked, active := 0, 0
+		for _, blk := range strings.Split(dump, "\n\ngoroutine ")[1:] {
+			if !strings.Contains(blk, "github.com/wolimst/lib-secs2-hsms-go/") {
+				continue
+			}
+			hdr := blk
+			if i := strings.Index(hdr, "\n"); i >= 0 {
+				hdr = hdr[:i]
+			}
+			switch {
+			case strings.Contains(hdr, "[chan send") || strings.Contains(hdr, "[chan receive") || strings.Contains(hdr, "[semacquire") || strings.Contains(hdr, "[sync.") || strings.Contains(hdr, "[select"):
+				parked++
+			default:
+				active++
+			}
+		}
+		if blocked > 0 && parked > 0 && active == 0 {
 			c.Rule = "the concurrent driver made no progress: see the goroutine dump"
 			c.NoteBulk(2, 2)
 			c.Sample(map[string]interface{}{"driver": "hung", "limit_minutes": limit.Minutes(), "goroutine_dump_head": firstLines(head, 40)})
-			c.Violation("C17/driver-hung-inside-the-library", fmt.Sprintf("after %v the concurrent driver had not finished; the goroutine dump shows %d library frames in blocked goroutines: %s", limit, blocked, firstLines(head, 12)), c17Case{Note: head})
+			c.Violation("C17/driver-hung-inside-the-library", fmt.Sprintf("after %v the concurrent driver had not finished; the goroutine dump shows %d library frames, all in goroutines parked on locks or channels: %s", limit, blocked, firstLines(head, 12)), c17Case{Note: head})
 			return c.Finish()
 		}
 		os.Stderr.WriteString(head)
